@@ -1069,7 +1069,7 @@ theorem streamConnect_inv (sc : Script) (s : S) (h : WF s) (hp : s.pq = []) (hc 
     | false => rfl
     | true => have := (h.closed_ok hx).1; rw [hc] at this; cases this
   have w1 : WF { s with connecting := false,
-                        pollout := if s.connErr < 0 ∨ s.wq.isEmpty then false else s.pollout,
+                        pollout := if s.connErr < 0 ∨ (s.wq.isEmpty ∧ !s.shutdownReq) then false else s.pollout,
                         hardErr := if s.connErr < 0 then true else s.hardErr } :=
     { wqs_eq := h.wqs_eq, wq_ok := h.wq_ok, sent_ok := h.sent_ok, done_ok := h.done_ok,
       acc_eq := h.acc_eq, acc_lt := h.acc_lt,
@@ -1085,7 +1085,7 @@ theorem streamConnect_inv (sc : Script) (s : S) (h : WF s) (hp : s.pq = []) (hc 
   obtain ⟨a, b, c⟩ := userCb_emit_wf sc _ (.conncb s.connErr) w1
   generalize hs2 : userCb sc (emit { s with
       connecting := false,
-      pollout := if s.connErr < 0 ∨ s.wq.isEmpty then false else s.pollout,
+      pollout := if s.connErr < 0 ∨ (s.wq.isEmpty ∧ !s.shutdownReq) then false else s.pollout,
       hardErr := if s.connErr < 0 then true else s.hardErr } (.conncb s.connErr)) = s2 at a b c
   have heq : streamConnect sc s =
       if !s2.fdOpen then s2 else if s2.connErr < 0 then writeCallbacks sc (flush s2) else s2 := by
@@ -1195,6 +1195,7 @@ theorem lstep_inv (sc : Script) (s : S) (op : LOp) (h : Inv s) : Inv (lstep sc s
     obtain ⟨a, b, _⟩ := apiOp_wf s o w
     exact ⟨a, b.pq.trans hp⟩
   | feed outs => exact ⟨w.envSet _, hp⟩
+  | clearEnv => exact ⟨w.envSet _, hp⟩
   | runPending =>
     simp only [lstep]
     split
